@@ -74,6 +74,7 @@ class SpliceInterp:
         self.cmps: List[Cmp] = []
         self.appends: Dict[str, List[ast.AST]] = {}
         self.bulk_copies: List[dict] = []
+        self._loops: List[ast.AST] = []
         self.env: Dict[str, AV] = {}
         self.kwargs_name = call.node.args.kwarg.arg if call.node.args.kwarg else None
         self.args_name = call.node.args.vararg.arg if call.node.args.vararg else None
@@ -163,7 +164,7 @@ class SpliceInterp:
             if b[0] == "map":
                 return b[2]
             if b[0] == "seq":
-                return b[1]
+                return b if isinstance(e.slice, ast.Slice) else b[1]
             if b[0] == "outer_results" or b[0] == "outer_nodes":
                 return ("any",)
             return None
@@ -293,6 +294,11 @@ class SpliceInterp:
         if last == "make_axn_id" and e.args:
             a = self.ev(e.args[0], env)
             return a if a is not None and a[0] == "id" else None
+        if last in ("ArgExecNode", "ReturnExecNode") and e.args:
+            # a constant holder created in place (the body of construct_subdag_arg_uxns written in the splice)
+            idv = self.ev(e.args[0], env)
+            self.sink("argument holder id", e, idv)
+            return ("xn", idv[1]) if idv is not None and idv[0] == "id" else None
         if last == "LazyExecNode":
             idv = next((self.ev(k.value, env) for k in e.keywords if k.arg == "id_"), None)
             self.sink("stub id", e, idv)
@@ -357,6 +363,12 @@ class SpliceInterp:
                     cur = b[1]
                     env[f.value.id] = ("seq", x if cur is None or cur[0] == "empty" or cur == x else None)
                     return ("any",)
+                if b[0] == "outer_results" and f.attr in ("force_set", "__setitem__") and len(e.args) == 2:
+                    # the copy written as an explicit loop: one entry per iteration of the enclosing loop
+                    k = self.ev(e.args[0], env)
+                    self.sink("outer results keys", e, k)
+                    self.bulk_copies.append({"node": self._loops[-1] if self._loops else e, "value": ("map", k, ("any",))})
+                    return ("any",)
                 if b[0] == "outer_results" and f.attr == "update" and e.args:
                     m = self.ev(e.args[0], env)
                     self.sink("outer results keys", e, ("id", m[1][1]) if m is not None and m[0] == "map" and m[1] is not None
@@ -387,6 +399,10 @@ class SpliceInterp:
                     if isinstance(s, ast.AnnAssign) and isinstance(s.value, ast.List) and not s.value.elts:
                         v = ("seq", ("empty",))
                     env[tg.id] = v
+                    # a collection of prefixed ids built in one go (instead of appended one by one) is a stub-id list too
+                    if v is not None and v[0] == "seq" and v[1] is not None and v[1] == ("id", "pref") \
+                            and isinstance(s.value, (ast.SetComp, ast.ListComp, ast.Call)):
+                        self.appends.setdefault(tg.id, []).append(s.value)
                 elif isinstance(tg, (ast.Tuple, ast.List)):
                     self.bind(tg, v, env)
                 elif isinstance(tg, ast.Subscript):
@@ -414,7 +430,9 @@ class SpliceInterp:
             elif isinstance(s, (ast.For, ast.AsyncFor)):
                 it = self.ev(s.iter, env)
                 self.bind(s.target, self.elem(it), env)
+                self._loops.append(s)
                 self.run(s.body)
+                self._loops.pop()
             elif isinstance(s, ast.While):
                 self.ev(s.test, env)
                 self.run(s.body)
